@@ -1,6 +1,6 @@
 -------------------------------- MODULE Report --------------------------------
 (***************************************************************************)
-(* The report modes of trippy (trippy-tui report/{json,csv,table,flows}.rs) *)
+(* The report modes of trippy (trippy-tui report/{json,csv,table,flows,dot}) *)
 (* as functions of the State snapshot they are generated from: one row per  *)
 (* hop of the default flow, in ttl order, carrying the hop's counters       *)
 (* exactly and its round-trip statistics rounded to the mode's number of    *)
@@ -47,4 +47,11 @@ ReportOK(mode, rows, hops) == Len(rows) = Len(hops) /\ \A i \in 1..Len(rows) : R
 
 \* the flows report: one line per registered flow, in registration order, each the flow's entries
 FlowsOK(lines, flows) == Len(lines) = Len(flows) /\ \A i \in 1..Len(lines) : lines[i].id = flows[i].id /\ lines[i].entries = flows[i].entries
+
+\* the dot report: the graph whose edges join consecutive positions of every registered flow; an unknown position ("*")
+\* is the node 0.0.0.0, and two unknown positions in a row contribute nothing
+Node(x) == IF x = "*" THEN "0.0.0.0" ELSE x
+FlowEdges(entries) == { <<Node(entries[i]), Node(entries[i + 1])>> :
+                          i \in { j \in 1..(Len(entries) - 1) : ~(entries[j] = "*" /\ entries[j + 1] = "*") } }
+DotOK(edges, flows) == { <<edges[i][1], edges[i][2]>> : i \in 1..Len(edges) } = UNION { FlowEdges(flows[i].entries) : i \in 1..Len(flows) }
 =============================================================================
